@@ -1,7 +1,9 @@
 // c04: correspondence and oracle for C04 (path precedence in the generated maps).
 //
-// The real hatypes.CreateMaps(order).AddMap(..).AddHostnamePathMapping(..) is fed
-// with rule sets, MatchFiles() is read back (Method/Lower/Values) and
+// The real code is fed with rule sets (see run and render.go: a real haproxy.Instance
+// with Config + HAProxyUpdate, or the map builder written with the real map template),
+// the generated map files are read back from disk in the order the rendered
+// configuration consults them, compared with MatchFiles() (Method/Lower/Values), and
 //   - the direct oracle looks every request of a boundary-closed request set up in the
 //     observed files with HAProxy's str/beg/dir semantics (transcribed below, no Coq
 //     model involved) and compares with the property's specification;
